@@ -597,6 +597,81 @@ FIELD_OF = {"max_entries": "max_entries", "total": "max_total_uncompressed_bytes
             "total_ratio": "max_total_compression_ratio", "entry_ratio": "max_entry_compression_ratio"}
 
 
+def _default_vectors(counts=True):
+    """Entry vectors at -1/0/+1 of every threshold of the documented default configuration."""
+    vectors = []
+    for d in (-1, 0, 1):
+        vectors.append((f"total uncompressed = 4 GiB{d:+d}", [(GIB, GIB // 100, False)] * 3 + [(GIB + d, GIB // 100, False)]))
+        vectors.append((f"single entry = 1 GiB{d:+d}", [(GIB + d, GIB // 100, False)]))
+        vectors.append((f"entry ratio = 500 (uncompressed 500*1000{d:+d}, compressed 1000)", [(500 * 1000 + d, 1000, False), (10, 1000000, False)]))
+        vectors.append((f"total ratio = 200 (two entries 200*1000{d:+d} / 1000)", [(200 * 1000 + d, 1000, False), (200 * 1000, 1000, False)]))
+        if counts:
+            vectors.append((f"entry count = 50000{d:+d}", [(1, 1, False)] * (50000 + d)))
+            vectors.append((f"entry count = 50000{d:+d} with directory records", [(1, 1, False)] * (49990 + d) + [(0, 0, True)] * 10))
+    return vectors
+
+
+def _forged_zip(entries):
+    """A real ZIP whose central directory claims the given (file_size, compress_size) per record (members are empty, stored;
+    directory records end with '/'): what a reader that trusts the central directory sees.  Sizes must fit 32 bits."""
+    import struct
+    import zipfile
+    buf = io.BytesIO()
+    with zipfile.ZipFile(buf, "w", zipfile.ZIP_STORED) as zf:
+        for i, (_fs, _cs, d) in enumerate(entries):
+            zf.writestr(f"m{i}/" if d else f"m{i}.bin", b"")
+    raw = bytearray(buf.getvalue())
+    pos = raw.find(b"PK\x01\x02")
+    for (fs_, cs_, _d) in entries:
+        if pos < 0 or raw[pos:pos + 4] != b"PK\x01\x02":
+            raise ValueError("central directory not where expected")
+        struct.pack_into("<II", raw, pos + 20, cs_, fs_)
+        nlen, xlen, clen = struct.unpack_from("<HHH", raw, pos + 28)
+        pos += 46 + nlen + xlen + clen
+    return bytes(raw)
+
+
+def native_default_wrappers():
+    """open_zipfile / validate_zip_bytesio called WITHOUT limits (what every in-library caller does) on real ZIPs with forged
+    central directories at -1/0/+1 of every default threshold; expected outcome from the executable spec on the records stock
+    zipfile lists, under the documented default configuration."""
+    import zipfile
+    try:
+        from sharepoint2text.parsing.extractors.util import zip_bomb
+        from sharepoint2text.parsing.exceptions import ExtractionZipBombError
+    except Exception:  # noqa
+        return None
+    vectors = _default_vectors(counts=False) + [(f"entry count = 50000{d:+d} with directory records", [(1, 1, False)] * (49990 + d) + [(0, 0, True)] * 10)
+                                                for d in (0, 1)]
+    for label, ent in vectors:
+        try:
+            payload = _forged_zip(ent)
+            with zipfile.ZipFile(io.BytesIO(payload)) as z:
+                seen = [(i.file_size, i.compress_size, i.is_dir()) for i in z.infolist()]
+        except Exception:  # noqa
+            continue
+        want = "rejected" if spec_reject_py(seen, SPEC_DEFAULTS) else "accepted"
+        for name in ("open_zipfile", "validate_zip_bytesio"):
+            fn = getattr(zip_bomb, name, None)
+            if fn is None:
+                continue
+            try:
+                r = fn(io.BytesIO(payload))
+                if r is not None and hasattr(r, "close"):
+                    r.close()
+                got = "accepted"
+            except ExtractionZipBombError:
+                got = "rejected"
+            except Exception as e:  # noqa
+                got = f"other:{type(e).__name__}"
+            if got != want:
+                shown = seen if len(seen) <= 6 else f"{len(seen)} records, first {seen[0]}, last {seen[-1]}"
+                return {"target": f"zip_bomb.py::{name} (limits not passed: the default configuration)",
+                        "inputs": {"case": label + " (real ZIP, forged central directory)", "entries (file_size, compress_size, is_dir)": shown,
+                                   "limits": "default"}, "expected": want, "observed": got}
+    return None
+
+
 def native_defaults():
     """The default configuration (property: 50000 entries, 4 GiB total, 1 GiB single, total ratio 200, entry ratio 500):
     field values of ZipBombLimits() / DEFAULT_ZIP_BOMB_LIMITS, the default of every `limits` parameter, and the decision of
@@ -605,14 +680,7 @@ def native_defaults():
     from sharepoint2text.parsing.extractors.util import zip_bomb
     from sharepoint2text.parsing.exceptions import ExtractionZipBombError
     L = SPEC_DEFAULTS
-    vectors = []
-    for d in (-1, 0, 1):
-        vectors.append((f"total uncompressed = 4 GiB{d:+d}", [(GIB, GIB // 100, False)] * 3 + [(GIB + d, GIB // 100, False)]))
-        vectors.append((f"single entry = 1 GiB{d:+d}", [(GIB + d, GIB // 100, False)]))
-        vectors.append((f"entry ratio = 500 (uncompressed 500*1000{d:+d}, compressed 1000)", [(500 * 1000 + d, 1000, False), (10, 1000000, False)]))
-        vectors.append((f"total ratio = 200 (two entries 200*1000{d:+d} / 1000)", [(200 * 1000 + d, 1000, False), (200 * 1000, 1000, False)]))
-        vectors.append((f"entry count = 50000{d:+d}", [(1, 1, False)] * (50000 + d)))
-        vectors.append((f"entry count = 50000{d:+d} with directory records", [(1, 1, False)] * (49990 + d) + [(0, 0, True)] * 10))
+    vectors = _default_vectors()
     for label, ent in vectors:
         want = "rejected" if spec_reject_py(ent, L) else "accepted"
         try:
@@ -783,7 +851,7 @@ def find(req):
     tried = 0
     fam, hint = _family(req)
     if fam == "limits":
-        r = native_defaults() or native_limits_lattice()
+        r = native_defaults() or native_default_wrappers() or native_limits_lattice()
         if r is not None:
             r.update(reproduced=True, found_by="default-configuration boundary vectors / non-default limits on real ZIPs")
             return r
@@ -808,7 +876,8 @@ def find(req):
             return r
         return {"reproduced": False, "note": "every ZIP-container entry point validates before the first member access and "
                                              "answers a bomb member with ExtractionZipBombError"}
-    r = (native_wrappers() or native_limits_lattice() or native_defaults() or native_sequences() or predicate_sequences()) if fam == "all" \
+    r = (native_wrappers() or native_limits_lattice() or native_defaults() or native_default_wrappers() or native_sequences()
+         or predicate_sequences()) if fam == "all" \
         else (_dirflag() or native_defaults() or predicate_sequences())
     if r is not None:
         r.update(reproduced=True, found_by="native wrapper cases")
